@@ -11,50 +11,67 @@ EXTENDS RelayAbs, Integers, TLC, Json, IOUtils
 
 Rec == ndJsonDeserialize(IOEnv.TRACE)
 
-VARIABLES l, idle
-tvars == <<vars, l, idle>>
+\* open findings this run may tolerate (from known_findings.json, never from the trace): the driver sets the environment
+\* variable DEV_<name> for each; every use of a deviation step is printed as DEV-USED so that the driver reports it
+Allowed(d) == ("DEV_" \o d) \in DOMAIN IOEnv
+
+VARIABLES l, idle,
+          wslink     \* the flow runs over a WebSocket link (ws / wss): from the Reset line, i.e. from the configuration
+tvars == <<vars, l, idle, wslink>>
 
 Ev(name) == l <= Len(Rec) /\ Rec[l].ev = name /\ l' = l + 1
 
-TraceInit == Init /\ l = 1 /\ idle = <<0, 0>>
+TraceInit == Init /\ l = 1 /\ idle = <<0, 0>> /\ wslink = FALSE
 
 TReset == /\ Ev("Reset") /\ UNCHANGED idle
+          /\ wslink' = ("ws" \in DOMAIN Rec[l] /\ Rec[l].ws)
+          /\ lapsed' = FALSE
           /\ phase' = "idle" /\ want' = 0 /\ reach' = "ok" /\ dials' = <<>>
           /\ sentUp' = 0 /\ gotUp' = 0 /\ sentDown' = 0 /\ gotDown' = 0
           /\ appClosed' = "no" /\ tgtClosed' = "no" /\ cleanApp' = FALSE /\ cleanTgt' = FALSE
           /\ appSaw' = "no" /\ tgtSaw' = "no" /\ fault' = FALSE
 
-TOpen      == Ev("Open")     /\ Open(Rec[l].want, Rec[l].reach) /\ UNCHANGED idle
-TRefused   == Ev("Refused")  /\ Refused /\ UNCHANGED idle
-TAppWrote  == Ev("AppWrote") /\ AppWrite(Rec[l].n) /\ UNCHANGED idle
-TTgtWrote  == Ev("TgtWrote") /\ TgtWrite(Rec[l].n) /\ UNCHANGED idle
-TAppClose  == Ev("AppClose") /\ AppClose(Rec[l].how) /\ UNCHANGED idle
-TTgtClose  == Ev("TgtClose") /\ TgtClose(Rec[l].how) /\ UNCHANGED idle
-TFault     == Ev("Fault")    /\ Fault /\ UNCHANGED idle
-TDial      == Ev("Dial")     /\ Dial(Rec[l].lis) /\ UNCHANGED idle
-TTgtGot    == Ev("TgtGot")   /\ DeliverUp(Rec[l].n, Rec[l].ok) /\ UNCHANGED idle
-TAppGot    == Ev("AppGot")   /\ DeliverDown(Rec[l].n, Rec[l].ok) /\ UNCHANGED idle
-TAppEnd    == Ev("AppEnd")   /\ AppEnd(Rec[l].how) /\ UNCHANGED idle
-TTgtEnd    == Ev("TgtEnd")   /\ TgtEnd(Rec[l].how) /\ UNCHANGED idle
-TSynced    == Ev("Synced")   /\ Synced(Rec[l].ok) /\ UNCHANGED idle
-TNoDial    == Ev("NoDial")   /\ NoDial /\ UNCHANGED idle
-TQuiesce   == Ev("Quiesce")  /\ Quiesce(Rec[l].wa, Rec[l].wt) /\ UNCHANGED idle
+TOpen      == Ev("Open")     /\ Open(Rec[l].want, Rec[l].reach) /\ UNCHANGED <<idle, wslink>>
+TRefused   == Ev("Refused")  /\ Refused /\ UNCHANGED <<idle, wslink>>
+TAppWrote  == Ev("AppWrote") /\ AppWrite(Rec[l].n) /\ UNCHANGED <<idle, wslink>>
+TTgtWrote  == Ev("TgtWrote") /\ TgtWrite(Rec[l].n) /\ UNCHANGED <<idle, wslink>>
+TAppClose  == Ev("AppClose") /\ AppClose(Rec[l].how) /\ UNCHANGED <<idle, wslink>>
+TTgtClose  == Ev("TgtClose") /\ TgtClose(Rec[l].how) /\ UNCHANGED <<idle, wslink>>
+TFault     == Ev("Fault")    /\ Fault /\ UNCHANGED <<idle, wslink>>
+TDial      == Ev("Dial")     /\ Dial(Rec[l].lis) /\ UNCHANGED <<idle, wslink>>
+TTgtGot    == Ev("TgtGot")   /\ DeliverUp(Rec[l].n, Rec[l].ok) /\ UNCHANGED <<idle, wslink>>
+TAppGot    == Ev("AppGot")   /\ DeliverDown(Rec[l].n, Rec[l].ok) /\ UNCHANGED <<idle, wslink>>
+TAppEnd    == Ev("AppEnd")   /\ AppEnd(Rec[l].how) /\ UNCHANGED <<idle, wslink>>
+TTgtEnd    == Ev("TgtEnd")   /\ TgtEnd(Rec[l].how) /\ UNCHANGED <<idle, wslink>>
+TSynced    == Ev("Synced")   /\ Synced(Rec[l].ok) /\ UNCHANGED <<idle, wslink>>
+TNoDial    == Ev("NoDial")   /\ NoDial /\ UNCHANGED <<idle, wslink>>
+TQuiesce   == Ev("Quiesce")  /\ Quiesce(Rec[l].wa, Rec[l].wt) /\ UNCHANGED <<idle, wslink>>
 
 \* a write that failed or stalled: legitimate only once the flow is being torn down (some side closed / fault)
 TWriteFailed == /\ l <= Len(Rec) /\ Rec[l].ev \in {"AppWriteFailed", "TgtWriteFailed", "AppWriteStalled", "TgtWriteStalled"}
                 /\ l' = l + 1
                 /\ appClosed # "no" \/ tgtClosed # "no" \/ fault \/ reach # "ok"
-                /\ UNCHANGED <<vars, idle>>
+                /\ UNCHANGED <<vars, idle, wslink>>
 
-TIdle    == Ev("Idle") /\ idle' = <<Rec[l].c, Rec[l].s>> /\ UNCHANGED vars
+TIdle    == Ev("Idle") /\ idle' = <<Rec[l].c, Rec[l].s>> /\ UNCHANGED <<vars, wslink>>
+\* Released does not wait for the surviving outer side: every flow of the batch had one outer side closed for good while
+\* the other one kept its connection open and silent; after the close grace (and a margin) both processes are back at
+\* the idle baseline although the harness still holds those connections
+THeld    == Ev("Held") /\ <<Rec[l].c, Rec[l].s>> = idle /\ UNCHANGED <<vars, idle, wslink>>
+TLapse   == Ev("Lapse") /\ Lapse /\ UNCHANGED <<idle, wslink>>
+\* deviation steps, offered only for open findings
+TAppEndNoHalf == /\ Ev("AppEnd") /\ wslink /\ Allowed("WsCloseEndsBoth") /\ AppEndNoHalf(Rec[l].how)
+                 /\ PrintT(<<"DEV-USED", "WsCloseEndsBoth", l>>) /\ UNCHANGED <<idle, wslink>>
+TTgtEndNoHalf == /\ Ev("TgtEnd") /\ wslink /\ Allowed("WsCloseEndsBoth") /\ TgtEndNoHalf(Rec[l].how)
+                 /\ PrintT(<<"DEV-USED", "WsCloseEndsBoth", l>>) /\ UNCHANGED <<idle, wslink>>
 \* Released: after any history of flows the descriptors are back at the idle baseline
-TSettled == Ev("Settled") /\ <<Rec[l].c, Rec[l].s>> = idle /\ UNCHANGED <<vars, idle>>
+TSettled == Ev("Settled") /\ <<Rec[l].c, Rec[l].s>> = idle /\ UNCHANGED <<vars, idle, wslink>>
 \* NoPanic: the logs of both processes contain no panic
-TPanic   == Ev("Panic") /\ Rec[l].n = 0 /\ UNCHANGED <<vars, idle>>
+TPanic   == Ev("Panic") /\ Rec[l].n = 0 /\ UNCHANGED <<vars, idle, wslink>>
 
 TraceNext == \/ TReset \/ TOpen \/ TRefused \/ TAppWrote \/ TTgtWrote \/ TAppClose \/ TTgtClose \/ TFault \/ TDial
              \/ TTgtGot \/ TAppGot \/ TAppEnd \/ TTgtEnd \/ TSynced \/ TNoDial \/ TQuiesce \/ TWriteFailed
-             \/ TIdle \/ TSettled \/ TPanic
+             \/ TIdle \/ TSettled \/ TPanic \/ THeld \/ TLapse \/ TAppEndNoHalf \/ TTgtEndNoHalf
 TraceSpec == TraceInit /\ [][TraceNext]_tvars
 
 \* state invariants, evaluated in every state of the recorded execution
